@@ -29,6 +29,7 @@ CONSTANTS
   Focus = TRUE
   Record = FALSE
   ReadOnly = FALSE
+  AckSplit = FALSE
   RM = TRUE
   Slots = 2
   RmUuids = {1, 2}
@@ -40,5 +41,5 @@ CONSTANTS
   Gaps = {}
   Bugs = {}
 VIEW view
-INVARIANTS C07 C16 C01 C02 C03 C04 C05 C06 C08 C11 C12 C13 C14 C15 StoreAgrees
+INVARIANTS C07 C16 C01 C02 C03 C04 C05 C06 C08 C11 C12 C13 C14 C15 StoreAgrees ReopenArmed
 CHECK_DEADLOCK FALSE
